@@ -43,6 +43,19 @@ func c01Shapes() []Shape {
 		return Prog(Pr(Op("-", Op("+", L(0), Op("*", L(1), L(2))), L(3))),
 			Pr(Op(o, P(Op("-", L(0), L(1))), P(Op("+", L(2), L(3))))))
 	}})
+	// chains in which only some operands are literals: what a constant folder could regroup
+	sh = append(sh, Shape{Name: "variable-and-literal-chains(op1,op2)", Prog: func(c *gosym.Ctx) *Program {
+		o1 := arithOps[c.Choose("op1", 0, 4)]
+		o2 := arithOps[c.Choose("op2", 0, 4)]
+		return Prog(Def("x", L(0)), Pr(Op(o2, Op(o1, V("x"), L(1)), L(2))), Pr(Op(o2, Op(o1, L(1), V("x")), L(2))), Pr(Op(o2, Op(o1, L(1), L(2)), V("x"))),
+			Def("y", Op(o2, Op(o1, V("x"), N(7)), N(3))), Pr(V("y")), Set("y", Op(o2, Op(o1, V("y"), N(1)), N(1))), Pr(V("y")),
+			Pr(Op(o2, Op(o1, L(1), L(2)), L(3))), Pr(Op(o1, V("x"), P(Op(o2, L(1), L(2))))))
+	}})
+	sh = append(sh, Shape{Name: "literal-only-conditions(cmp)", Prog: func(c *gosym.Ctx) *Program {
+		o := cmpOps[c.Choose("cmp", 0, 5)]
+		return Prog(IfElse(Op(o, L(0), L(1)), Blk{Pr(S("t"))}, Blk{Pr(S("f"))}), Pr(Op("&&", T(), Op(o, L(0), N(5))), Op("||", F(), Op(o, N(5), L(1)))),
+			Pr(Op("==", S("a"), S("a")), Op("!=", S("a"), S("b")), Op("+", S("a"), S("b"))), Def("i", N(0)), ForC(Op("&&", T(), Op("<", V("i"), N(2))), Inc("i")), Pr(V("i")))
+	}})
 	sh = append(sh, Shape{Name: "cmp-of-sums(op)", Prog: func(c *gosym.Ctx) *Program {
 		o := cmpOps[c.Choose("cmp", 0, 5)]
 		return Prog(Pr(Op(o, Op("+", L(0), L(1)), Op("*", L(2), L(3)))), Def("b", Op(o, L(0), L(2))), Pr(V("b"), NOT(V("b"))))
